@@ -89,6 +89,8 @@ int comp_iso()
         else if(o == "runatpcm" && a.size() == 1) os << "ret=" << opn2_setRunAtPcmRate(in.dev, (int)a[0]);
         else if(o == "chips" && a.size() == 1) os << "ret=" << opn2_setNumChips(in.dev, (int)a[0]);
         else if(o == "reset") { opn2_reset(in.dev); os << "ok"; }
+        else if(o == "lfo" && a.size() == 1) { opn2_setLfoEnabled(in.dev, (int)a[0]); os << "ok"; }
+        else if(o == "lfofreq" && a.size() == 1) { opn2_setLfoFrequency(in.dev, (int)a[0]); os << "ok"; }
         else if(o == "on" && a.size() == 3) os << "ret=" << opn2_rt_noteOn(in.dev, (OPN2_UInt8)a[0], (OPN2_UInt8)a[1], (OPN2_UInt8)a[2]);
         else if(o == "off" && a.size() == 2) { opn2_rt_noteOff(in.dev, (OPN2_UInt8)a[0], (OPN2_UInt8)a[1]); os << "ok"; }
         else if(o == "cc" && a.size() == 3) { opn2_rt_controllerChange(in.dev, (OPN2_UInt8)a[0], (OPN2_UInt8)a[1], (OPN2_UInt8)a[2]); os << "ok"; }
